@@ -1,5 +1,6 @@
 from vlib import *
 import spec
+from math import hypot
 
 AFF = Record("picosvg.svg_transform.Affine2D")
 
@@ -13,10 +14,20 @@ def _eps(result):
     )
 
 
+def _summary(transform, target, w):
+    """what callers may rely on: the result draws `target` through (approximately) `transform`"""
+    return same(w[1], target) and close(w[0], spec.aff(transform), 1e-9 * 32770)
+
+
 @contract("nanoemoji.paint.transformed", props=["C16", "C01", "C06"])
 class transformed:
     args = {"transform": AFF, "target": Opaque("Paint")}
+    # modular use: callers see a ghost `Wrapped(target, m)` with m ~ transform
+    returns = lambda transform, target: spec.Wrapped(target, TupleOf(Real, Real, Real, Real, Real, Real))
+    modular_ensures = {"summary": lambda transform, target, result: _summary(transform, target, spec.placed(result))}
     ensures = {
+        # the modular summary is a consequence of what is proved about the real result
+        "summary": lambda transform, target, result: _summary(transform, target, spec.placed(result)),
         # the paint that is emitted denotes the affine it replaces
         "denotes": lambda transform, target, result: (
             spec.aff(transform) == spec.ID
@@ -75,3 +86,233 @@ def _paint_token(ident):
     from nanoemoji.colors import Color
 
     return PaintGlyph(glyph=f"opaque{ident}", paint=PaintSolid(Color(0, 0, 0, 1.0)))
+
+
+# ---------------------------------------------------------------------------- gettransform
+# Every transform paint's own reading of its fields must be the affine the COLR
+# specification assigns to that paint format (spec.ot_transform is written from the spec).
+
+def _gt(cls, **fields):
+    return Record("nanoemoji.paint." + cls, **fields)
+
+
+PT = Record("picosvg.geometric_types.Point")
+
+
+def _mag(self):
+    return 1 + sum(abs(v) for v in spec.ot_transform(self))
+
+
+@contract("nanoemoji.paint.PaintTransform.gettransform", props=["C16", "C13"])
+class gt_transform:
+    args = {"self": _gt("PaintTransform", transform=TupleOf(Real, Real, Real, Real, Real, Real))}
+    ensures = {"spec": lambda self, result: spec.aff(result) == spec.ot_transform(self)}
+
+
+@contract("nanoemoji.paint.PaintTranslate.gettransform", props=["C16", "C13"])
+class gt_translate:
+    args = {"self": _gt("PaintTranslate", dx=Real, dy=Real)}
+    ensures = {"spec": lambda self, result: spec.aff(result) == spec.ot_transform(self)}
+
+
+@contract("nanoemoji.paint.PaintScale.gettransform", props=["C16", "C13"])
+class gt_scale:
+    args = {"self": _gt("PaintScale")}
+    ensures = {"spec": lambda self, result: spec.aff(result) == spec.ot_transform(self)}
+
+
+@contract("nanoemoji.paint.PaintScaleUniform.gettransform", props=["C16", "C13"])
+class gt_scale_uniform:
+    args = {"self": _gt("PaintScaleUniform")}
+    ensures = {"spec": lambda self, result: spec.aff(result) == spec.ot_transform(self)}
+
+
+@contract("nanoemoji.paint.PaintScaleAroundCenter.gettransform", props=["C16", "C13"])
+class gt_scale_center:
+    args = {"self": _gt("PaintScaleAroundCenter")}
+    ensures = {"spec": lambda self, result: spec.aff(result) == spec.ot_transform(self)}
+    native_ensures = {"spec-close": lambda self, result: close(spec.aff(result), spec.ot_transform(self), 1e-9 * _mag(self))}
+    native_skip = ("spec",)
+
+
+@contract("nanoemoji.paint.PaintScaleUniformAroundCenter.gettransform", props=["C16", "C13"])
+class gt_scale_uniform_center:
+    args = {"self": _gt("PaintScaleUniformAroundCenter")}
+    ensures = {"spec": lambda self, result: spec.aff(result) == spec.ot_transform(self)}
+    native_ensures = {"spec-close": lambda self, result: close(spec.aff(result), spec.ot_transform(self), 1e-9 * _mag(self))}
+    native_skip = ("spec",)
+
+
+@contract("nanoemoji.paint.PaintRotate.gettransform", props=["C16", "C13"])
+class gt_rotate:
+    args = {"self": _gt("PaintRotate")}
+    ensures = {"spec": lambda self, result: spec.aff(result) == spec.ot_transform(self)}
+    native_ensures = {"spec-close": lambda self, result: close(spec.aff(result), spec.ot_transform(self), 1e-9)}
+    native_skip = ("spec",)
+
+
+@contract("nanoemoji.paint.PaintRotateAroundCenter.gettransform", props=["C16", "C13"])
+class gt_rotate_center:
+    args = {"self": _gt("PaintRotateAroundCenter")}
+    ensures = {"spec": lambda self, result: spec.aff(result) == spec.ot_transform(self)}
+    native_ensures = {"spec-close": lambda self, result: close(spec.aff(result), spec.ot_transform(self), 1e-9 * _mag(self))}
+    native_skip = ("spec",)
+
+
+@contract("nanoemoji.paint.PaintSkew.gettransform", props=["C16", "C13"])
+class gt_skew:
+    args = {"self": _gt("PaintSkew")}
+    ensures = {"spec": lambda self, result: spec.aff(result) == spec.ot_transform(self)}
+    native_ensures = {"spec-close": lambda self, result: close(spec.aff(result), spec.ot_transform(self), 1e-9 * _mag(self))}
+    native_skip = ("spec",)
+    native_requires = lambda self: abs(self.xSkewAngle % 180 - 90) > 1 and abs(self.ySkewAngle % 180 - 90) > 1
+
+
+@contract("nanoemoji.paint.PaintSkewAroundCenter.gettransform", props=["C16", "C13"])
+class gt_skew_center:
+    args = {"self": _gt("PaintSkewAroundCenter")}
+    ensures = {"spec": lambda self, result: spec.aff(result) == spec.ot_transform(self)}
+    native_ensures = {"spec-close": lambda self, result: close(spec.aff(result), spec.ot_transform(self), 1e-9 * _mag(self))}
+    native_skip = ("spec",)
+    native_requires = lambda self: abs(self.xSkewAngle % 180 - 90) > 1 and abs(self.ySkewAngle % 180 - 90) > 1
+
+
+# ---------------------------------------------------------------------------- uniform / residual split
+
+
+@contract("nanoemoji.paint._decompose_uniform_transform", props=["C16", "C01", "C13"])
+class decompose_uniform:
+    args = {"transform": AFF}
+    returns = TupleOf(AFF, AFF)
+    # not (numerically) singular: hypot(a,b)*hypot(c,d) is what picosvg tests against epsilon
+    requires = [lambda transform: hypot(transform.a, transform.b) * hypot(transform.c, transform.d) > 2 ** -52]
+    # near-singular input ends in an error (never a wrong value)
+    may_raise = ("ZeroDivisionError", "AssertionError")
+    abstract_round = True  # round(x, 9) as "some real within 5e-10 of x" (sound over-approximation)
+    ensures = {
+        "uniform-shape": lambda transform, result: (
+            result[0].b == 0 and result[0].c == 0 and result[0].a > 0 and abs(result[0].d) == result[0].a
+        ),
+        "y-sign-kept": lambda transform, result: (result[0].d > 0) == (transform.d >= 0),
+        "residual-has-no-translation": lambda transform, result: result[1].e == 0 and result[1].f == 0,
+        # the only inexact step is round(9) on the residual, applied after the uniform part
+        "recompose": lambda transform, result: close(
+            spec.ltr(spec.aff(result[0]), spec.aff(result[1])),
+            spec.aff(transform),
+            1e-4 + 1e-9 * (result[0].a + abs(result[0].e) + abs(result[0].f)),
+        ),
+    }
+    native_requires = lambda transform: abs(transform.a * transform.d - transform.b * transform.c) > 1e-3
+
+
+# ---------------------------------------------------------------------------- gradients through a transform
+
+LIN = _gt("PaintLinearGradient", extend=Opaque("Extend"), stops=Opaque("Stops"), p0=PT, p1=PT, p2=PT)
+RAD = _gt("PaintRadialGradient", extend=Opaque("Extend"), stops=Opaque("Stops"), c0=PT, c1=PT, r0=Real, r1=Real)
+
+
+@opaque_factory("Extend")
+def _extend_token(ident):
+    from nanoemoji.paint import Extend
+
+    return list(Extend)[hash(ident) % 3]
+
+
+@opaque_factory("Stops")
+def _stops_token(ident):
+    from nanoemoji.paint import ColorStop
+    from nanoemoji.colors import Color
+
+    return (ColorStop(0.0, Color(255, 0, 0, 1.0)), ColorStop(1.0, Color(0, 0, hash(ident) % 256, 0.5)))
+
+
+def _lin_coords(g):
+    return (g.p0[0], g.p0[1], g.p1[0], g.p1[1], g.p2[0], g.p2[1])
+
+
+def _lin_overflow(g):
+    return any(not spec.in_int16(v) for v in _lin_coords(g))
+
+
+def _rad_overflow(g):
+    return any(not spec.in_int16(v) for v in (g.c0[0], g.c0[1], g.c1[0], g.c1[1])) or any(
+        not (0 <= r and r <= spec.UINT16_MAX) for r in (g.r0, g.r1)
+    )
+
+
+@contract("nanoemoji.paint.PaintLinearGradient.check_overflows", props=["C16"])
+class lin_check_overflows:
+    args = {"self": LIN}
+    raises = {"OverflowError": lambda self: _lin_overflow(self)}
+    ensures = {"returns-self": lambda self, result: same(result, self)}
+
+
+@contract("nanoemoji.paint.PaintRadialGradient.check_overflows", props=["C16"])
+class rad_check_overflows:
+    args = {"self": RAD}
+    raises = {"OverflowError": lambda self: _rad_overflow(self)}
+    ensures = {"returns-self": lambda self, result: same(result, self)}
+
+
+def _lin_mapped(self, transform):
+    T = spec.aff(transform)
+    return (spec.pt(T, self.p0), spec.pt(T, self.p1), spec.pt(T, self.p2))
+
+
+@contract("nanoemoji.paint.PaintLinearGradient.apply_transform", props=["C16", "C01", "C06"])
+class lin_apply_transform:
+    args = {"self": LIN, "transform": AFF, "check_overflows": Bool}
+    raises = {
+        "OverflowError": lambda self, transform, check_overflows: check_overflows
+        and any(not spec.in_int16(v) for p in _lin_mapped(self, transform) for v in p)
+    }
+    ensures = {
+        # all three points go through the whole affine (p2 is a point, not a direction)
+        "geometry": lambda self, transform, result: (
+            (tuple(result.p0), tuple(result.p1), tuple(result.p2)) == _lin_mapped(self, transform)
+        ),
+        "colour-line-kept": lambda self, result: same(result.stops, self.stops) and same(result.extend, self.extend),
+        "still-linear": lambda result: kind(result) == "PaintLinearGradient",
+    }
+    native_skip = ("geometry",)
+    native_ensures = {
+        "geometry~": lambda self, transform, result: close(
+            (tuple(result.p0), tuple(result.p1), tuple(result.p2)), _lin_mapped(self, transform), 1e-6
+        )
+    }
+
+
+def _decomp(calls):
+    return calls["nanoemoji.paint._decompose_uniform_transform"][0].result
+
+
+@contract("nanoemoji.paint.PaintRadialGradient.apply_transform", props=["C16", "C01", "C06"])
+class rad_apply_transform:
+    args = {"self": RAD, "transform": AFF, "check_overflows": Bool}
+    requires = [lambda transform: hypot(transform.a, transform.b) * hypot(transform.c, transform.d) > 2 ** -52]
+    may_raise = ("ZeroDivisionError", "AssertionError")
+    raises = {
+        # an error, never a clamped value: iff a mapped centre leaves int16 or a scaled radius leaves uint16
+        "OverflowError": lambda self, transform, check_overflows, calls: check_overflows
+        and (
+            any(not spec.in_int16(v) for c in (self.c0, self.c1) for v in spec.pt(spec.aff(_decomp(calls)[0]), c))
+            or any(not (0 <= r * _decomp(calls)[0].a and r * _decomp(calls)[0].a <= spec.UINT16_MAX) for r in (self.r0, self.r1))
+        )
+    }
+    ensures = {
+        # with (U, R) the uniform/residual split of `transform` (ghost: the callee's result):
+        # the circles are mapped by U alone, radii scaled by U's (positive) scale, and the
+        # residual is what wraps the gradient
+        "circles-by-uniform-part": lambda self, transform, result, calls: (
+            tuple(spec.placed(result)[1].c0) == spec.pt(spec.aff(_decomp(calls)[0]), self.c0)
+            and tuple(spec.placed(result)[1].c1) == spec.pt(spec.aff(_decomp(calls)[0]), self.c1)
+            and spec.placed(result)[1].r0 == self.r0 * _decomp(calls)[0].a
+            and spec.placed(result)[1].r1 == self.r1 * _decomp(calls)[0].a
+        ),
+        "residual-wraps": lambda self, transform, result, calls: close(
+            spec.placed(result)[0], spec.aff(_decomp(calls)[1]), 1e-9 * 32770
+        ),
+        "colour-line-kept": lambda self, result: same(spec.placed(result)[1].stops, self.stops)
+        and same(spec.placed(result)[1].extend, self.extend),
+        "still-radial": lambda result: kind(spec.placed(result)[1]) == "PaintRadialGradient",
+    }
